@@ -40,6 +40,9 @@ type Opts struct {
 	CompactionOverhead uint64
 	RecoveryType       table.SnapshotRecoveryType
 	Applied            func(table string, rev uint64)
+	// AppliedNode (StartCluster): like Applied, with the index of the node whose table state machine applied - it runs ON that node's
+	// apply path, so a hook that sleeps holds exactly that replica back
+	AppliedNode func(node int, table string, rev uint64)
 	Pebble             bool // use the pebble LogDB instead of tan
 }
 
@@ -254,6 +257,15 @@ func StartCluster(n int, o Opts) ([]*Fixture, error) {
 				},
 				Meta: storage.MetaConfig{ElectionRTT: 10, HeartbeatRTT: 1},
 				FS:   lvfs.NewMem(), Log: zap.NewNop().Sugar(), LogCacheSize: o.LogCacheSize,
+			}
+			if o.AppliedNode != nil {
+				node := i - 1
+				cfg.Table.AppliedIndexListener = func(table string, rev uint64) {
+					if o.Applied != nil {
+						o.Applied(table, rev)
+					}
+					o.AppliedNode(node, table, rev)
+				}
 			}
 			fxs[i-1] = &Fixture{Cfg: cfg, opts: o}
 			wg.Add(1)
